@@ -110,3 +110,92 @@ Proof.
   - discriminate.
 Qed.
 Print Assumptions match_total.
+
+(** ** Parser and lexer *)
+
+(** Parsing always terminates without panicking: on every input string and on every token
+    list handed to [HopPatternParser] directly (with or without EOI, empty included) the
+    result is [Ok] or [Err]; the fuel (= number of tokens) is never exhausted, the
+    [tokens.len() - 1] and [tokens[pos]] sites are never reached out of range.  (The lexer is
+    a structural pass over the characters.) *)
+Theorem parse_total :
+  forall (s : list N) (ts : list token),
+    is_panic (parse_pattern s) = false /\ is_panic (parse_tokens ts) = false.
+Proof. intros s ts. split; apply parse_tokens_total. Qed.
+Print Assumptions parse_total.
+
+(** Redundant parentheses and whitespace do not change a pattern's meaning.  Let [es] be any
+    list of expressions and [kss] ANY spelling of them by the token grammar of [Spec]
+    ([or_k]: each expression a left-associated [|]-chain of postfix pieces, any
+    sub-expression wrapped in any number of parenthesis pairs).  Lay the tokens out as text
+    with arbitrary runs of space/tab/newline before every token and at the end (two adjacent
+    predicate tokens separated by at least one).  Then lexing and parsing that text yields
+    exactly [es].  Hence two texts that differ only in redundant parentheses and whitespace
+    parse to the same expressions, and so denote the same language. *)
+Theorem parens_ws_irrelevant :
+  forall (es : list expr) (kss : list (list tkind)) (items : list (list N * tkind)) (trail : list N),
+    Forall2 (or_k pred_from_str) es kss ->
+    map snd items = concat kss ->
+    items_ok items = true -> skip_ws trail = true ->
+    parse_pattern (render items trail) = Ok es.
+Proof.
+  intros es kss items trail HF Hk Hi Ht. unfold parse_pattern, lex.
+  apply (parse_grammar es kss); [exact HF|].
+  rewrite <- Hk. apply (lex_kinds items trail 0%N Hi Ht).
+Qed.
+Print Assumptions parens_ws_irrelevant.
+Example parens_ws_irrelevant_nonvacuous :
+  (* "(1|2)+ 3"  and  " ( ( 1 ) |(2 ) )+\n((3))\t" *)
+  parse_pattern [40; 49; 124; 50; 41; 43; 32; 51]
+  = parse_pattern [32; 40; 32; 40; 32; 49; 32; 41; 32; 124; 40; 50; 32; 41; 32; 41; 43; 10; 40; 40; 51; 41; 41; 9]
+  /\ parse_pattern [40; 49; 124; 50; 41; 43; 32; 51]
+     = Ok [EPlus (EOr (EPred (mkPred 1 None IfAny)) (EPred (mkPred 2 None IfAny))); EPred (mkPred 3 None IfAny)].
+Proof. vm_compute. auto. Qed.
+
+(** the grammar is closed under wrapping any sub-expression in one more pair of parentheses,
+    and regrouping an alternation does not change its language *)
+Theorem parens_redundant :
+  forall e ks,
+    (or_k pred_from_str e ks -> post_k pred_from_str e (KLParen :: ks ++ [KRParen]))
+    /\ (post_k pred_from_str e ks -> post_k pred_from_str e (KLParen :: ks ++ [KRParen]))
+    /\ (forall a b c w, lang (EOr a (EOr b c)) w <-> lang (EOr (EOr a b) c) w).
+Proof.
+  intros e ks. split; [apply PK_paren|]. split; [intros H; apply PK_paren, OK_post, H|].
+  intros a b c w. rewrite !or_iff. tauto.
+Qed.
+Print Assumptions parens_redundant.
+
+(** ** Predicate text form *)
+
+(** Hop predicates survive printing and re-parsing: for every predicate whose fields lie in
+    the ranges of their Rust types (u16 ISD and interfaces, 48-bit AS -- decimal below 2^32,
+    colon-separated hexadecimal above) [HopPredicate::from_str(p.to_string()) = Ok(p)].
+    Excluded: the recorded finding [ifaces_without_asn] (interfaces present, AS absent; see
+    Findings.pred_ifaces_without_asn_refuted), a shape the parser itself never produces. *)
+Theorem pred_print_parse :
+  forall p : pred,
+    pred_wf p -> ifaces_without_asn p = false ->
+    pred_from_str (pred_to_str p) = Some p.
+Proof. exact pred_roundtrip. Qed.
+Check pred_print_parse :
+  forall p, pred_wf p -> ifaces_without_asn p = false -> pred_from_str (pred_to_str p) = Some p.
+Print Assumptions pred_print_parse.
+Example pred_print_parse_nonvacuous :
+  let p := mkPred 65535 (Some 281474976710655) (IfBoth 65535 0) in
+  pred_wf p /\ ifaces_without_asn p = false
+  /\ pred_to_str p = [54; 53; 53; 51; 53; 45; 102; 102; 102; 102; 58; 102; 102; 102; 102; 58;
+                      102; 102; 102; 102; 35; 54; 53; 53; 51; 53; 44; 48].
+Proof. split; [cbv; repeat split; reflexivity|]. vm_compute. auto. Qed.
+
+(** ** The run-time oracles are the specification *)
+
+(** The boolean oracles that [Cases] evaluates on the IMPLEMENTATION's observed results are
+    equivalent to the [Prop]-level specification: [acl_specb] to the first-match sentence,
+    [langb] (Brzozowski derivatives, unrelated to the position-set algorithm) to membership
+    in the pattern's language, [hop_satb] to predicate satisfaction. *)
+Theorem oracles_are_spec :
+  (forall a hs, acl_specb a hs = true <-> acl_spec a hs)
+  /\ (forall es hs, langb es hs = true <-> lang_seq es hs)
+  /\ (forall p h, hop_satb p h = true <-> hop_sat p h).
+Proof. split; [exact acl_specb_iff|]. split; [exact langb_iff|exact hop_satb_iff]. Qed.
+Print Assumptions oracles_are_spec.
